@@ -11,7 +11,7 @@ LEXER = 'the lexer is represented by its contract inside the driver proofs (defa
 R13 = 'semantic values are ghost identifiers (R13): std::variant/optional/tuple, the functors and reduce_value_impl are outside the verified text'
 
 # obligations that belong to particular properties only (not counted, pass or fail, for the others)
-OWNED = {r'stack/capacity:': ['C06', 'C12']}
+OWNED = {r'stack/capacity:': ['C06', 'C12'], r'stack/capacity-shape:': ['C06', 'C12']}
 
 L_KNUTH = "Knuth's LR(1) theorem (closed states + goto kernels + table read off the items + driver executing the table => accepts exactly L(G)) is not mechanised; closure, transitions, analyze_states and the FIRST/nullable recursion are NOT under contract (solver cost / time), so a change confined to them is not seen by this check"
 GLUE = 'the pack-expansion glue that fills grammar_info from the DSL objects (analyze_terms/nterms/rule, create_lexer, init_reductors: R18) is outside the extraction'
@@ -27,7 +27,7 @@ PROPS = {
     'C05': dict(units=['state_analyzer'],
                 claim="solve_conflict decides reduce iff rule precedence > term precedence or equal with the rule left-associative (from the statement); the rule's last term is its right-most terminal; rule precedence = explicit [n] if non-zero else the last term's else 0; rule associativity = the last term's",
                 assumptions=['conflict detection inside transitions() (which entry gets the verdict, has_sr_conflict) is not under contract', L_KNUTH, GLUE]),
-    'C07': dict(units=['dfa', 'driver'],
+    'C07': dict(units=['dfa', 'driver'], static=[SF.buffers_static],
                 claim='absence of undefined behaviour on the failure paths the property anchors (lexical error in get_current_term, non-matching regex::expr::match): the exact condition under which a constant evaluator must accept the evaluation; the parse path is one lowered text for all buffer kinds (R7)',
                 assumptions=["that g++'s and clang's constant evaluators and the compiled code compute the same function of a UB-free evaluation is the language standard (trusted)",
                              'buffer adaptors (cstring_buffer::iterator operators, the three get_view) are pinned as one-line pattern facts, not verified as functions', LEXER]),
@@ -41,7 +41,7 @@ PROPS = {
     'C02': dict(units=['driver', 'stdex', 'dfa'],
                 claim='driver-level half of bottom-up evaluation: which rule functor is invoked, with which stack slice, in which order, once; shift applies the term functor of the shifted term to the pending lexeme; success returns the bottom value',
                 assumptions=[L_PATH, L_IDS, TABLE_WF, R13, 'that the popped slice is the handle of the unique derivation is the LR(1) theorem (C01), not mechanised']),
-    'C04': dict(units=['driver', 'utils', 'dfa'],
+    'C04': dict(units=['driver', 'utils', 'dfa'], static=[SF.buffers_static],
                 claim='whitespace skipping is exactly the documented sets; the lexer is asked once at the skipped position with the whole rest of the buffer; the lexeme is exactly [current_it, current_it+len); a failure result yields one Unexpected character report',
                 assumptions=[LEXER, 'longest match/first-listed priority of the automaton itself: unit dfa (dfa_match/run); the union automaton built by merging is not verified (finding D10)']),
     'C06': dict(units=['driver', 'stdex', 'utils', 'regex_lexer', 'dfa'], all=['driver', 'stdex'],
